@@ -661,7 +661,9 @@ def unescape_linked_text(
 
             try:
                 target = loader[href]
-            except KeyError:
+            except (KeyError, ValueError, TypeError):
+                # no such element, or not a usable link at all (malformed
+                # ID, wrong xsi:type): either way the link is dead
                 yield f"&lt;deleted element {ehref}&gt;"
             else:
                 if name := target.get("name"):
